@@ -8,6 +8,7 @@ recursive, timing mode (drain after every operation / two operations back to bac
 one read per burst, root spelling.  What each property asserts is selected by `props`."""
 from __future__ import annotations
 
+import errno
 import os
 
 from watchdog.events import (DirCreatedEvent, DirDeletedEvent, DirModifiedEvent, DirMovedEvent, FileClosedEvent,
@@ -265,7 +266,7 @@ def replay_tree(initial, events, as_str):
     return tree
 
 
-def h_history(props, nops, recursive, settled, one_per_read, spelling, full, first=None):
+def h_history(props, nops, recursive, settled, one_per_read, spelling, full, first=None, fault=False):
     """spelling: 'bytes' | 'str' | 'slash' (str with a trailing slash)
     first: optional fixed first operation (op, src, dst) - a directed history: only the later operations are symbolic"""
     fs = FM.FS(ROOT, TREE)
@@ -278,6 +279,12 @@ def h_history(props, nops, recursive, settled, one_per_read, spelling, full, fir
     em = cls(q, ObservedWatch(rootarg, recursive=recursive))
     em.on_thread_start()
     fs.stop_flag = em._inotify._stopped_event
+    if fault:
+        # the n-th inotify_add_watch made from now on fails (ENOENT: the entry vanished again, ENOTDIR: it was replaced
+        # by a file, EACCES: it became unreadable) - a transient failure the pipeline must survive
+        fs.fault_n = api.choice("fault.n", (1, 2))
+        fs.fault_errno = api.choice("fault.errno", (errno.ENOENT, errno.ENOTDIR, errno.EACCES))
+        fs.armed = True
     initial = []
     for p in list(fs.kind.keys()):
         if inside(p):
@@ -291,6 +298,10 @@ def h_history(props, nops, recursive, settled, one_per_read, spelling, full, fir
             p = api.choice("src" + str(i), SRC)
             d = api.choice("dst" + str(i), DST)
         api.assume(valid(fs, op, p, d))
+        if fault:
+            # only operations that bring a directory into the tree make the library add watches (the others behave as
+            # in the sessions without a fault)
+            api.assume((op == "mkdir") | (op == "rename"))
         if (not settled) and i > 0:
             api.assume(paced(ops[i - 1], op, p, d, prev_kind))
         before_kind = dict(fs.kind)
@@ -337,6 +348,11 @@ def h_history(props, nops, recursive, settled, one_per_read, spelling, full, fir
             # one probe in a symbolically chosen existing directory (every directory is probed by some choice)
             dpath = api.choice("probe_dir", (ROOT, b"/r/a", b"/r/ab", b"/r/c", b"/r/e", b"/r/a/c", b"/r/e/c"))
             api.assume(fs.isdir(dpath) & (not fs.exists(dpath + b"/probe")))
+            if fault:
+                # a directory whose watch could not be added is legitimately unwatched: probe the ones that were
+                # there (and watched) from the start
+                api.assume((dpath == ROOT) | (dpath == b"/r/a") | (dpath == b"/r/ab") | (dpath == b"/r/e"))
+                fs.armed = False
             if (dpath == ROOT) | recursive:
                 fs.create(dpath + b"/probe")
                 drain(fs, em)
